@@ -446,8 +446,14 @@ def run(ctx: Any, prog: Program) -> None:
     for name in ('__getitem__', '__contains__', '__delitem__', 'new_file'):
         fn = vm[name]
         uses = any(isinstance(c, ast.Call) and dotted(c.func) == '_get_file_parts' for c in walk_no_nested(fn))
+        raw_params = {a.arg for a in fn.args.args[1:2]}
         raw = [n for n in walk_no_nested(fn) if isinstance(n, ast.Subscript) and dotted(n.value) == 'self._fileinfo' and dotted(n.slice) in ('item', 'filename')]
-        ctx.check('C13.Z4', uses and not raw, vpk, fn, f'VPK.{name} must obtain (path, name, ext) from _get_file_parts and never index the table with the raw argument', func=f'VPK.{name}', text=f'{name} normalises')
+        # any other table of the archive keyed by the argument as the caller spelled it ('a/b.c', ('a', 'b.c') and ('a', 'b', 'c') are one file)
+        raw += [n for n in walk_no_nested(fn) if isinstance(n, ast.Subscript) and (dotted(n.value) or '').startswith('self.') and dotted(n.slice) in raw_params]
+        raw += [n for n in walk_no_nested(fn) if isinstance(n, ast.Call) and isinstance(n.func, ast.Attribute) and n.func.attr in ('get', 'pop', 'setdefault', '__contains__') and (dotted(n.func.value) or '').startswith('self.')
+                and n.args and dotted(n.args[0]) in raw_params]
+        raw += [n for n in walk_no_nested(fn) if isinstance(n, ast.Compare) and len(n.ops) == 1 and isinstance(n.ops[0], (ast.In, ast.NotIn)) and dotted(n.left) in raw_params and (dotted(n.comparators[0]) or '').startswith('self.')]
+        ctx.check('C13.Z4', uses and not raw, vpk, raw[0] if raw else fn, f'VPK.{name} must obtain (path, name, ext) from _get_file_parts and never index the table with the raw argument', func=f'VPK.{name}', text=f'{name} normalises')
     # the three spellings must give one decomposition: the 3-tuple form names the extension explicitly (the part after the LAST
     # dot, which is also how the directory tree groups files), so the string and 2-tuple forms have to split at the last dot too
     gfp = vpk.func('_get_file_parts')
@@ -466,6 +472,21 @@ def run(ctx: Any, prog: Program) -> None:
                   func='_get_file_parts', text='extension split at the last dot')
     else:
         ctx.check('C13.Z4', True, vpk, splitext[0], 'os.path.splitext splits at the last dot', func='_get_file_parts', text='extension split at the last dot')
+    # ---- Z11: nothing is read back from the directory file after write_dirfile has truncated it ------------------------------------------
+    ctx.rule('C13.Z11', 'write_dirfile: what is used after the directory file was opened for writing is already in memory (no property that reads the file lazily)', floor=1)
+    wd11 = vm['write_dirfile']
+    trunc = [w for w in walk_no_nested(wd11) if isinstance(w, ast.With) and any(isinstance(i.context_expr, ast.Call) and dotted(i.context_expr.func) == 'open' and len(i.context_expr.args) >= 2
+                                                                             and isinstance(i.context_expr.args[1], ast.Constant) and 'w' in str(i.context_expr.args[1].value) for i in w.items)]
+    ctx.shape('C13.Z11', len(trunc) == 1, vpk, wd11, 'write_dirfile opens the directory file once for writing', func='VPK.write_dirfile', text='truncating open')
+    lazy_props = {}
+    for st in vpk.cls('VPK').body:
+        if isinstance(st, ast.FunctionDef) and any(dotted(d) == 'property' for d in st.decorator_list):
+            if any(isinstance(c, ast.Call) and dotted(c.func) in ('open', 'self._open', 'io.open') for c in ast.walk(st)):
+                lazy_props[st.name] = st
+    for w in trunc:
+        reads = [a for st in w.body for a in ast.walk(st) if isinstance(a, ast.Attribute) and dotted(a.value) == 'self' and a.attr in lazy_props]
+        ctx.check('C13.Z11', not reads, vpk, reads[0] if reads else w, f'write_dirfile reads self.{reads[0].attr if reads else ""} after the directory file has been opened with "wb": that property loads its value from the same '
+                  'file on first use, which is now empty - the data of every file stored after the directory tree is written back as nothing', func='VPK.write_dirfile', text='no lazy read after truncation')
     # ---- Z5 ------------------------------------------------------------------------------------------------
     w = fm['write']
     crc_src = [n for n in walk_no_nested(w) if isinstance(n, ast.Assign) and isinstance(n.value, ast.Call) and dotted(n.value.func) == 'checksum' and len(n.value.args) == 1]
@@ -538,6 +559,7 @@ def run(ctx: Any, prog: Program) -> None:
         ctx.shape('C13.Z6', False, vpk, w, 'preload slice bound not recognised', func='FileInfo.write', text='preload bounded to 16 bits')
 
 MUTANTS = [
+    {'id': 'getitem_cache_keyed_by_raw_argument', 'file': 'vpk.py', 'find': "        path, filename, ext = _get_file_parts(item)\n\n        try:\n            return self._fileinfo[ext][path][filename]\n", 'replace': "        try:\n            return self._cache[item]\n        except (AttributeError, KeyError, TypeError):\n            pass\n        path, filename, ext = _get_file_parts(item)\n\n        try:\n            return self._fileinfo[ext][path][filename]\n", 'expect': 'C13.Z4'},
     {'id': 'footer_compacted_in_directory_order', 'file': 'vpk.py', 'find': "    def __iter__(self) -> Iterator[FileInfo]:\n        \"\"\"Yield all FileInfo objects.\"\"\"", 'replace': "    def _compact_footer(self) -> None:\n        footer = bytearray(self.footer_data)\n        pos = 0\n        for info in self:\n            if info.arch_index is not None or not info.arch_len:\n                continue\n            if info.offset != pos:\n                footer[pos: pos + info.arch_len] = footer[info.offset: info.offset + info.arch_len]\n                info.offset = pos\n            pos += info.arch_len\n        del footer[pos:]\n        self.footer_data = bytes(footer)\n\n    def __iter__(self) -> Iterator[FileInfo]:\n        \"\"\"Yield all FileInfo objects.\"\"\"", 'expect': 'C13.Z10'},
     {'id': 'verify_blockwise_overreads', 'file': 'vpk.py', 'find': "                    chk = checksum(\n                        data.read(self.arch_len),\n                        chk,\n                    )", 'replace': "                    remaining = self.arch_len\n                    while remaining > 0:\n                        block = data.read(min(self.arch_len, 65536))\n                        if not block:\n                            return False\n                        chk = checksum(block, chk)\n                        remaining -= len(block)", 'expect': 'C13.Z5'},
     {'id': 'verify_blockwise_correct', 'file': 'vpk.py', 'find': "                    chk = checksum(\n                        data.read(self.arch_len),\n                        chk,\n                    )", 'replace': "                    remaining = self.arch_len\n                    while remaining > 0:\n                        block = data.read(min(remaining, 65536))\n                        if not block:\n                            return False\n                        chk = checksum(block, chk)\n                        remaining -= len(block)", 'expect': None, 'refuse_ok': True},
